@@ -9,6 +9,7 @@ bool staticsAvailable() { return false; }
 const StaticRegion *staticRegions() { return nullptr; }
 void staticsInit() {}
 void staticsRestore() {}
+void staticsRestoreRef() {}
 size_t staticsLibraryBytes() { return 0; }
 #else
 extern "C" {
@@ -16,10 +17,16 @@ extern char h3w_pad_before_data[4096];
 extern char h3w_pad_after_data[4096];
 extern char h3w_pad_before_bss[4096];
 extern char h3w_pad_after_bss[4096];
+extern char h3r_pad_before_data[4096];
+extern char h3r_pad_after_data[4096];
+extern char h3r_pad_before_bss[4096];
+extern char h3r_pad_after_bss[4096];
 }
 namespace {
-StaticRegion g_reg[2];
-char *g_snap[2] = {nullptr, nullptr};
+// [0],[1]: data and bss of the simulated copy; [2],[3]: of the reference copy
+const int NREG = 4;
+StaticRegion g_reg[NREG];
+char *g_snap[NREG] = {nullptr, nullptr, nullptr, nullptr};
 bool g_ready = false;
 }  // namespace
 bool staticsAvailable() { return true; }
@@ -30,7 +37,11 @@ void staticsInit() {
     g_reg[0].hi = (uintptr_t)h3w_pad_after_data + 4096;
     g_reg[1].lo = (uintptr_t)h3w_pad_before_bss;
     g_reg[1].hi = (uintptr_t)h3w_pad_after_bss + 4096;
-    for (int i = 0; i < 2; i++) {
+    g_reg[2].lo = (uintptr_t)h3r_pad_before_data;
+    g_reg[2].hi = (uintptr_t)h3r_pad_after_data + 4096;
+    g_reg[3].lo = (uintptr_t)h3r_pad_before_bss;
+    g_reg[3].hi = (uintptr_t)h3r_pad_after_bss + 4096;
+    for (int i = 0; i < NREG; i++) {
         StaticRegion &r = g_reg[i];
         if ((r.lo & 4095) || (r.hi & 4095) || r.hi <= r.lo || r.hi - r.lo > (64u << 20)) {
             fprintf(stderr, "statics: unexpected layout of library static storage\n");
@@ -43,12 +54,17 @@ void staticsInit() {
 }
 void staticsRestore() {
     if (!g_ready) return;
-    for (int i = 0; i < 2; i++)
+    for (int i = 0; i < NREG; i++)
+        memcpy((void *)g_reg[i].lo, g_snap[i], g_reg[i].hi - g_reg[i].lo);
+}
+void staticsRestoreRef() {
+    if (!g_ready) return;
+    for (int i = 2; i < NREG; i++)
         memcpy((void *)g_reg[i].lo, g_snap[i], g_reg[i].hi - g_reg[i].lo);
 }
 size_t staticsLibraryBytes() {
     size_t n = 0;
-    for (int i = 0; i < 2; i++) n += (g_reg[i].hi - g_reg[i].lo) - 2 * 4096;
+    for (int i = 0; i < 2; i++) n += (g_reg[i].hi - g_reg[i].lo) - 2 * 4096;  // simulated copy only
     return n;
 }
 #endif
